@@ -377,4 +377,29 @@ def ifLine : List Stmt → Bool
     | .ret _ bare, [] => !bare
     | _, _ => ifStmt s && ifLine ss
 
+/-- Side conditions on a top-level `for i in range(b): body` covered by the loop refinement theorem: the
+bound is tensor-valued, the body is in the `if` fragment (so no `break`, no nested loop), the loop variable
+is neither assigned in the body nor read after the loop (C01-D31: the converter leaves it bound to the
+body-local name), and liveness analysis reached its fixpoint. -/
+def forOK (i : Name) (b : Expr) (body : List Stmt) (lo : VSet) : Bool :=
+  tensorRhs b && ifBlock body && !(lo.contains i) &&
+  (match assignedBlock body with
+   | some d => !(d.contains i)
+   | none => false) &&
+  stableStmt (.for_ i true b body) lo
+
+/-- Top-level statements of the `for` fragment. -/
+def forTopStmt : Stmt → VSet → Bool
+  | .for_ i ok b body, lo => ok && forOK i b body lo
+  | s, _ => ifStmt s
+
+/-- Function bodies of the `for` fragment: `if`-fragment statements and `for i in range(b)` loops over
+`if`-fragment bodies, followed by one `return e1, …, en`. -/
+def forLine : List Stmt → Bool
+  | [] => false
+  | s :: ss =>
+    match s, ss with
+    | .ret _ bare, [] => !bare
+    | _, _ => forTopStmt s (liveInBlock ss []) && forLine ss
+
 end OV.C01
